@@ -322,6 +322,11 @@ def seq_unit(v):
 def coerce(v, ty):
     """Coerce value ``v`` to logical type ``ty`` where this is a pure re-tagging
     (None -> Opt, T -> Opt(T), PyList -> Seq, Ref(sub) -> Ref(super))."""
+    if isinstance(ty, TOpaque) and ty.sort_name == "Any":
+        # a value the slice does not track: any value fits, nothing is remembered about it
+        if isinstance(v, Val) and v.ty == ty:
+            return v
+        return fresh(ty, "any")
     if isinstance(v, PyList):
         if isinstance(ty, TSeq):
             out = empty_seq(ty.elem)
@@ -342,11 +347,12 @@ def coerce(v, ty):
                 terms += coerce(it, t).terms
             return Val(ty, terms)
         raise TypeError("cannot coerce list to %r" % ty)
-    if isinstance(ty, TOpaque) and ty.sort_name == "Any":
-        # a value the slice does not track: any value fits, nothing is remembered about it
-        if isinstance(v, Val) and v.ty == ty:
-            return v
-        return fresh(ty, "any")
+    if isinstance(v, ExcVal):
+        if isinstance(ty, TOpt) and isinstance(ty.inner, TOpaque):
+            return Val(ty, [z3.BoolVal(False)] + fresh(ty.inner, "exc").terms)
+        if isinstance(ty, TOpaque):
+            return fresh(ty, "exc")
+        raise TypeError("cannot coerce an exception object to %r" % ty)
     if isinstance(v, PyDict):
         if isinstance(ty, TMap) and not v.items:
             return empty_map(ty.key, ty.val)
